@@ -1,11 +1,22 @@
 #include "enum_type.h"
 #include "core.h"
+#include <cassert>
 
 namespace ratio
 {
     enum_type::enum_type(scope &scp, std::string name) : type(scp, name) {}
 
     expr enum_type::new_instance(context &) { return get_core().new_enum(*this, get_all_instances()); }
+
+    expr enum_type::new_existential()
+    { // the allowed values are the values of this enum and of all the enums it includes..
+        const std::vector<item *> vals = get_all_instances();
+        assert(!vals.empty());
+        if (vals.size() == 1)
+            return vals.front();
+        else
+            return get_core().new_enum(*this, vals);
+    }
 
     std::vector<item *> enum_type::get_all_instances() const noexcept
     {
